@@ -343,6 +343,7 @@ def _cvc5_check(asserts, timeout_s, vars_, opts=('--solve-bv-as-int=sum',), logi
     s = z3.Solver(); s.add(*asserts)
     txt = s.to_smt2()
     txt = txt.replace('(check-sat)', '')
+    txt = re.sub(r'\b(bvurem|bvudiv|bvsdiv|bvsrem|bvsmod)_i\b', r'\1', txt)    # z3-internal names of the SMT-LIB (total) operators
     head = '(set-option :produce-models true)\n' + ('(set-logic %s)\n' % logic if logic else '(set-logic ALL)\n')
     names = [v.sexpr() for v in vars_]
     tail = '(check-sat)\n' + ('(get-value (%s))\n' % ' '.join(names) if names else '')
@@ -445,7 +446,7 @@ class Session:
 
     # -- the main entry: check a function of the real code against a spec, with replay and known-findings handling
     def check_fn(s, unit, fname, spec, pre=None, *, mode='fp', unwind=16, timeout=None, solver='z3', name=None, bounds='',
-                 validate=None, side=True, known=(), witness=True, mutant=None, ins=None, ubsan=False, opt='-O1', extra_hyps=None, mandatory=True):
+                 validate=None, side=True, known=(), witness=True, mutant=None, ins=None, ubsan=False, opt='-O1', extra_hyps=None, mandatory=True, ex=None):
         """spec(ins, outs) -> Bool | [(label, Bool)] ; pre(ins) -> Bool | [Bool]
         side=True: also discharge the executor's own obligations (unwinding, traps, UB, domain) under pre.
         """
@@ -453,7 +454,7 @@ class Session:
         fn = unit.fns[fname]
         t0 = time.time()
         try:
-            res = sym_call(unit, fname, ins=ins, mode=mode, unwind=unwind, ubsan=ubsan, opt=opt)
+            res = sym_call(unit, fname, ins=ins, mode=mode, unwind=unwind, ubsan=ubsan, opt=opt, ex=ex(unit, mode, unwind) if callable(ex) else ex)
         except Unsupported as e:
             s.rec(name=name, kind='encode', result='unsupported', status='not-encoded', note=str(e), mandatory=mandatory, functions=[fname])
             if mandatory: s.inconclusive.append('%s [not encoded: %s]' % (name, e))
